@@ -5,6 +5,7 @@ import e2, mirdump
 from e2 import *
 from mirsym import models as MD
 from mirsym.sym import derives_from
+from mirsym import iters as IT
 
 PROP = 'C16'
 RM = 'crates/anemo/src/routing/mod.rs'
@@ -19,9 +20,10 @@ def viol(ob, exs, detail, key, sample, n):
 def router_sym(p, name='router'):
     rf = struct_fields(RM, 'Router')
     mf = struct_fields(RM, 'RouteMatcher')
-    matcher = struct_sym(name + '.matcher', 'RouteMatcher', mf, {'inner': Sym(name + '.matchit', 'matchit::Router<RouteId>'),
-                                                               'route_id_to_path': Sym(name + '.id2path', 'HashMap<RouteId, Arc<str>>'),
-                                                               'path_to_route_id': Sym(name + '.path2id', 'HashMap<Arc<str>, RouteId>')})
+    vals = {'inner': Sym(name + '.matchit', 'matchit::Router<RouteId>'), 'route_id_to_path': Sym(name + '.id2path', 'HashMap<RouteId, Arc<str>>')}
+    if 'path_to_route_id' in mf:       # reverse index: not needed by any behaviour the property talks about, bound only if it exists
+        vals['path_to_route_id'] = Sym(name + '.path2id', 'HashMap<Arc<str>, RouteId>')
+    matcher = struct_sym(name + '.matcher', 'RouteMatcher', mf, vals)
     r = struct_sym(name, 'Router', rf, {'routes': Sym(name + '.routes', 'BTreeMap<RouteId, Route>'), 'matcher': matcher, 'fallback': Sym(name + '.fallback', 'Route')})
     return r, rf, mf
 
@@ -118,15 +120,24 @@ def ob_fallback_notfound(report):
     return guarded(report, 'fallback_is_not_found', 'Router::new installs the NotFound service as fallback; it answers StatusCode::NotFound', ['Router::new', '<NotFound as Service>::call'], {}, body)
 
 
+def _plain_full_iteration(ex, p, it, coll_name):
+    """the abstract iterator visits every element of collection `coll_name` (no filter / take / skip stage)"""
+    src, mode, stages, _ = IT.parts(it)
+    c = IT._coll(ex, p, src)
+    return vname(c) == coll_name and all(st.variant in ('deref', 'map', 'enumerate') for st in stages)
+
+
 def ob_route_layer(report):
     def body(ob):
-        ex = e2.executor('anemo', [], max_depth=2)
+        ex = e2.executor('anemo', IT.ITER_MODELS + [(r'BTreeMap::insert$', MD.m_map_insert)], max_depth=4, unroll=2)
         fn = find_method(ex.prog, 'Router', 'route_layer')
         p = Path()
         router, rf, mf = router_sym(p)
         res = ex.run(fn, [router, Sym('layer', 'L')], p)
-        n = 0
+        n = n_items = 0
         for r in res:
+            if r.tag == 'loop-bound':
+                continue
             if r.tag != 'return' or not (isinstance(r.ret, Agg) and r.ret.name == 'Router'):
                 return viol(ob, [ex], f'route_layer returns {vrepr(r.ret)} / {r.tag}', 'layer-ret', path_summary(r), len(res))
             routes, matcher, fallback = (r.ret.fields[rf.index(x)] for x in ('routes', 'matcher', 'fallback'))
@@ -135,40 +146,52 @@ def ob_route_layer(report):
                             'layer-fallback', path_summary(r), len(res))
             if vname(matcher) != 'router.matcher':
                 return viol(ob, [ex], 'route_layer changes the matcher', 'layer-matcher', path_summary(r), len(res))
-            # routes = collect(map(into_iter(old routes), closure))
-            clo = []
-            ok_src = derives_from(routes, lambda v: isinstance(v, Sym) and v.name == 'router.routes')
-
-            def grab(v):
-                if isinstance(v, Sym) and v.get_ov('head') is not None:
-                    clo.append(v)
-                return False
-            derives_from(routes, grab)
-            if not ok_src or len(clo) != 1:
+            # the new table: either collected from a pipeline over the old routes, or filled by a loop over them
+            evs = r.events
+            flows = []          # (source element, key, value) put into the new table
+            its = []
+            pipeline = routes.get_ov('collected') if isinstance(routes, Sym) else None
+            if pipeline is not None:
+                its.append(pipeline)
+                for e in evs:
+                    if e.kind == 'collect-item' and vname(e.args[2]) == vname(routes):
+                        item = e.args[0]
+                        if not (isinstance(item, Agg) and len(item.fields) == 2):
+                            return viol(ob, [ex], f'route_layer collects {vrepr(item)[:120]}, not (id, route) pairs', 'layer-closure', path_summary(r), len(res))
+                        flows.append((e.args[1], item.fields[0], item.fields[1]))
+            elif isinstance(routes, Sym):
+                for i, e in enumerate(evs):
+                    if e.kind == 'next' and e.name == 'None':
+                        its.append(e.args[0])
+                    if e.kind == 'next' and e.name == 'Some' and e.args[0] is not None:
+                        its.append(e.args[2])
+                        rest = evs[i + 1:]
+                        nxt = next((jx for jx, x in enumerate(rest) if x.kind == 'next'), len(rest))
+                        ins = [x for x in rest[:nxt] if x.kind == 'map' and x.name == 'insert' and x.args[0].s == routes.name]
+                        if len(ins) != 1:
+                            return viol(ob, [ex], f'an existing route is put into the new table {len(ins)} times (must be exactly once)', 'layer-routes-source', path_summary(r), len(res))
+                        flows.append((e.args[1], ins[0].args[1], ins[0].args[2]))
+                if routes.name == 'router.routes' and not [x for x in evs if x.kind == 'map']:
+                    return viol(ob, [ex], 'route_layer returns the old route table unchanged (no route is layered)', 'layer-routes-source', path_summary(r), len(res))
+            if not its or not all(_plain_full_iteration(ex, r.path, it, 'router.routes') for it in its):
                 return viol(ob, [ex], 'the new route table is not built by mapping every existing route', 'layer-routes-source', path_summary(r), len(res))
-            # the closure: (id, route) -> (id, Route::new(layer.layer(route)))
-            ex2 = e2.executor('anemo', [], max_depth=2, opaque=[r'Route::new$'])
-            outs = []
-            pair = Agg('()', None, (z3.BitVec('rid', 32), Sym('old_route', 'Route')), 'tuple')
-            q = Path()
-            q.mem = dict(r.path.mem)
-            call = Call('route_layer-closure', [], '', None, fn, 0, None)
-            ex2.results = []
-            ex2.call_closure(q, clo[0], [pair], call, lambda q2, ret: outs.append((q2, ret)))
-            if not outs or any(x.tag != 'return' for x in ex2.results):
-                return ob.done([ex, ex2], 'inconclusive', 'route_layer closure not analysable', paths=len(res))
-            for q2, ret in outs:
-                okc = isinstance(ret, Agg) and len(ret.fields) == 2 and (str(ret.fields[0]) == 'rid' or vname(ret.fields[0]) == 'rid' or 'rid' in vrepr(ret.fields[0]))
-                ly = [e for e in q2.events if e.kind == 'call' and re.search(r'as Layer>::layer$', e.name)]
-                okc = okc and len(ly) == 1 and vname(ly[0].args[1]) == 'old_route' and derives_from(ret.fields[1], lambda v: isinstance(v, Sym) and v.name == vname(ly[0].ret))
+            for e0, key, val in flows:
+                if not (isinstance(e0, Agg) and len(e0.fields) == 2):
+                    return viol(ob, [ex], f'source element is {vrepr(e0)[:100]}', 'layer-closure', path_summary(r), len(res))
+                id0, route0 = e0.fields
+                ly = [e for e in evs if e.kind == 'call' and re.search(r'as Layer>::layer$', e.name) and vname(e.args[1]) == vname(route0)]
+                okc = vrepr(key) == vrepr(id0) and len(ly) == 1 and vname(ex.deref(r.path, ly[0].args[0]) if isinstance(ly[0].args[0], Ptr) else ly[0].args[0]) == 'layer' \
+                    and derives_from(val, lambda v: isinstance(v, Sym) and v.name == vname(ly[0].ret))
                 if not okc:
-                    return viol(ob, [ex, ex2], f'route_layer does not rebuild each route as (same id, Route::new(layer.layer(route))): {vrepr(ret)[:200]}', 'layer-closure', path_summary(Result(q2, ret, 'return')), len(res))
+                    return viol(ob, [ex], f'route_layer does not rebuild each route as (same id, Route::new(layer.layer(route))): ({vrepr(key)[:60]}, {vrepr(val)[:160]})', 'layer-closure',
+                                path_summary(r), len(res))
+                n_items += 1
             n += 1
-        if not n:
-            return ob.done([ex], 'inconclusive', 'no path', paths=len(res))
-        ob.done([ex], 'held', '', {'paths': len(res)}, paths=len(res))
+        if not n or not n_items:
+            return ob.done([ex], 'inconclusive', f'vacuity: paths={n} layered elements={n_items}', paths=len(res))
+        ob.done([ex], 'held', '', {'paths': len(res), 'elements_checked': n_items}, paths=len(res))
     return guarded(report, 'route_layer_scope', 'route_layer: every existing route becomes (same id, layer(route)); matcher and fallback are unchanged, so unmatched requests and later routes are not layered',
-                   ['Router::route_layer', 'Router::route_layer::{closure}'], {'inline_depth': 2}, body)
+                   ['Router::route_layer', 'Router::route_layer::{closure}'], {'inline_depth': 4, 'iteration': 'one generic element per pipeline / 2 loop unrollings'}, body)
 
 
 def ob_route_and_merge(report):
@@ -217,9 +240,9 @@ def ob_route_and_merge(report):
                 return vrepr(x) == vrepr(rid)
             ok = (len(byname.get('router.routes', [])) == 1 and same_id(byname['router.routes'][0].args[1])
                   and len(byname.get('router.id2path', [])) == 1 and same_id(byname['router.id2path'][0].args[1])
-                  and len(byname.get('router.path2id', [])) == 1 and same_id(byname['router.path2id'][0].args[2]))
+                  and all(same_id(e.args[2]) for e in byname.get('router.path2id', [])))
             if not ok:
-                return viol(ob, [ex], f'route(): pattern, id->path, path->id and id->service are not all registered under the same fresh id: {[repr(e)[:90] for e in maps]}',
+                return viol(ob, [ex], f'route(): pattern, id->path and id->service are not all registered under the same fresh id: {[repr(e)[:90] for e in maps]}',
                             'route-bookkeeping', path_summary(r), len(res))
             svc = byname['router.routes'][0].args[2]
             if not derives_from(svc, lambda v: isinstance(v, Sym) and (v.name == 'service' or v.name.startswith('downcast'))):
@@ -234,16 +257,7 @@ def ob_route_and_merge(report):
         def m_into(ex_, p_, call, k):
             k(p_, other)
 
-        def m_next(ex_, p_, call, k):
-            n = p_.seq('it')
-            q = p_.clone()
-            pair = Agg('()', None, (Agg('RouteId', None, (z3.BitVec(f'oid{n}', 32),)), Sym(f'oroute{n}', 'Route')), 'tuple')
-            p_.events.append(Event('next', 'Some', (pair,)))
-            k(p_, MD.some(pair))
-            q.events.append(Event('next', 'None', ()))
-            k(q, MD.NONE)
-        ex2 = e2.executor('anemo', [(r'routing::Router::route$|^Router::route$', m_route), (r'<R as Into>::into$', m_into),
-                                    (r'IntoIter as Iterator>::next$', m_next)] + models, max_depth=2, unroll=2)
+        ex2 = e2.executor('anemo', [(r'routing::Router::route$|^Router::route$', m_route), (r'<R as Into>::into$', m_into)] + IT.ITER_MODELS + models, max_depth=4, unroll=2)
         fn2 = find_method(ex2.prog, 'Router', 'merge')
         p2 = Path()
         me, _, _ = router_sym(p2, 'router')
@@ -255,8 +269,10 @@ def ob_route_and_merge(report):
                 continue      # documented expect: id without path is a bug
             evs = r.events
             for i, e in enumerate(evs):
-                if e.kind == 'next' and e.name == 'Some':
+                if e.kind == 'next' and e.name == 'Some' and e.args[0] is not None:
                     pair = e.args[0]
+                    if not _plain_full_iteration(ex2, r.path, e.args[2], 'other.routes') or not (isinstance(pair, Agg) and len(pair.fields) == 2):
+                        return viol(ob, [ex, ex2], 'merge does not walk over every (id, route) of the other router', 'merge-iteration', path_summary(r), len(res2))
                     rest = evs[i + 1:]
                     nxt = next((j for j, x in enumerate(rest) if x.kind == 'next'), len(rest))
                     it = rest[:nxt]
@@ -268,7 +284,7 @@ def ob_route_and_merge(report):
                         return viol(ob, [ex, ex2], f'merge does not re-register a route of the other router through Router::route (found {len(rr)} registrations, '
                                     f'{len(direct)} direct table updates): bookkeeping of the merged router is incomplete', 'merge-reregister', path_summary(r), len(res2))
                     pth, svc = rr[0].args[1], rr[0].args[2]
-                    oid = str(pair.fields[0].fields[0])
+                    oid = vname(pair.fields[0]) if not isinstance(pair.fields[0], Agg) else str(pair.fields[0].fields[0])
                     if vname(svc) != vname(pair.fields[1]):
                         return viol(ob, [ex, ex2], f'merge registers {vrepr(svc)} instead of the other router\'s (possibly layered) route', 'merge-service', path_summary(r), len(res2))
                     if not (vname(pth).startswith('other.id2path[') and oid in vname(pth)):
